@@ -21,7 +21,6 @@ element variables of simple local containers.  For every entry
 An entry whose `refused` is set must make the translator raise TranslationError (closed world: a construct that
 is not classified is not silently accepted).
 """
-import ast
 import os
 
 import numpy as np
@@ -166,6 +165,39 @@ CONSTRUCTS = [
     ("local_elem_extracted_then_mutated", "LL", "x = []\nx.append(a)\ne = x[0]\ne[0].append(1)\nreturn None", M),
     ("local_rebound_in_loop", "LL", "for i in range(2):\n    x = []\n    x.append(a[i])\n    x[0].append(1)\nreturn None", M),
     ("local_pop_elem", "LL", "x = list(a)\ne = x.pop()\ne.append(1)\nreturn None", M),
+    ("simple_copy_then_elem", "L", "x = {}\nx['a'] = a\ny = x.copy()\ny['a'].append(1)\nreturn None", M),
+    ("simple_slice_then_elem", "L", "x = [a]\ny = x[:]\ny[0].append(1)\nreturn None", M),
+    ("simple_iadd_display", "L", "x = []\nx += [a]\nx[0].append(1)\nreturn None", M),
+    ("simple_extend_display", "L", "x = []\nx.extend([a])\nx[0].append(1)\nreturn None", M),
+    ("simple_extend_other", "LL", "x = []\nx.extend(a)\nx[0].append(1)\nreturn None", M),
+    ("simple_insert", "L", "x = []\nx.insert(0, a)\nx[0].append(1)\nreturn None", M),
+    ("simple_update_display", "L", "x = dict()\nx.update({'k': a})\nx['k'].append(1)\nreturn None", M),
+    ("simple_update_kw", "L", "x = {}\nx.update(k=a)\nx['k'].append(1)\nreturn None", M),
+    ("simple_comprehension_iter", "L", "x = [a]\n[e.append(1) for e in x]\nreturn None", M),
+    ("simple_get", "L", "x = {'k': a}\nx.get('k').append(1)\nreturn None", M),
+    ("simple_get_default", "L", "x = {}\nx.get('k', a).append(1)\nreturn None", M),
+    ("simple_pop", "L", "x = {'k': a}\nx.pop('k').append(1)\nreturn None", M),
+    ("simple_items_iter", "L", "x = {'k': a}\nfor k, v in x.items():\n    v.append(1)\nreturn None", M),
+    ("simple_values_iter", "L", "x = {'k': a}\nfor v in x.values():\n    v.append(1)\nreturn None", M),
+    ("simple_values_list", "L", "x = {'k': a}\nlist(x.values())[0].append(1)\nreturn None", M),
+    ("simple_enumerate", "L", "x = [a]\nfor i, e in enumerate(x):\n    e.append(i)\nreturn None", M),
+    ("simple_zip", "L L", "x = [a]\ny = [b]\nfor e, f in zip(x, y):\n    f.append(1)\nreturn None", M),
+    ("simple_reversed_sorted_slice", "LL", "x = [a[0], a[1]]\nfor e in reversed(sorted(x[0:])):\n    e.append(1)\nreturn None", M),
+    ("simple_nested_display", "L", "x = {'k': {'j': a}}\nx['k']['j'].append(1)\nreturn None", M),
+    ("simple_tuple_element", "L", "x = [(a,)]\nx[0][0].append(1)\nreturn None", M),
+    ("simple_elem_iadd_list", "L", "x = [a]\nx[0] += [1]\nreturn None", M),
+    ("simple_elem_iadd_array", "V", "x = [a]\nx[0] += 1.0\nreturn None", M),
+    ("simple_elem_moved", "L", "x = [a]\ny = []\ny.append(x[0])\ny[0].append(1)\nreturn None", M),
+    ("simple_elem_of_elem", "LL", "x = [a]\nx[0][1].append(1)\nreturn None", M),
+    ("simple_comprehension_of_params", "LL", "x = [e for e in a]\nx[2].append(1)\nreturn None", M),
+    ("simple_dictcomp_of_params", "D", "x = {k: v for k, v in a.items()}\nx['k1'].append(1)\nreturn None", M),
+    ("simple_dictcomp_fresh", "D", "x = {k: list(v) for k, v in a.items()}\nx['k1'].append(1)\nreturn x", P),
+    ("simple_setdefault_chain", "DA", "x = {}\nfor k in a.keys():\n    x.setdefault(k, {})[0] = a[k]\nfor k in x.keys():\n    x[k][1] = None\nreturn None", P),
+    ("simple_store_then_whole_alias", "L", "x = [[]]\nx[0] = a\nx[0].append(1)\nreturn None", M),
+    ("simple_slice_store", "LL", "x = [[], []]\nx[0:2] = a\nx[1].append(1)\nreturn None", M),
+    ("tuple_pack_elem_write", "V V", "t = (a, b)\nt[0][...] = 0.0\nreturn None", M),
+    ("starred_display_elem", "LL", "x = [*a]\nx[0].append(1)\nreturn None", M),
+    ("callers_list_in_local_dict_returned", "L", "x = {'k': a}\nreturn x", AL),
     ("del_param_then_rebuild", "D", "ks = list(a.keys())\ndel a\na = {k: [] for k in ks}\nfor k in ks:\n    a[k].append(1)\nreturn a", P),
     ("del_param_then_alias", "D D", "del a\na = b\na['x'] = [1]\nreturn None", M),
     ("list_of_arrays_elem_iadd", "LA", "a[0] += 1.0\nreturn None", M),
